@@ -243,3 +243,18 @@ Example C12_example_ttest :
 Proof.
   vm_compute. repeat split; try discriminate. eexists; split; reflexivity.
 Qed.
+
+(** the binary64 incremental mean (Mean as coded) stays within [min, max] of the
+    sample whenever no intermediate difference overflows (proof shared with
+    C17: Proofs/LegacyMean.v, through Flocq) *)
+From Perf Require Model.Legacy Proofs.LegacyMean.
+From Coq Require Import List.
+Theorem C12_mean_in_hull_b64 : forall xs : list B64.b64,
+  xs <> nil ->
+  Forall (fun x => SpecFloat.valid_binary 53 1024 x = true /\ B64.b64_is_finite x = true) xs ->
+  (Z.of_nat (length xs) < 2 ^ 53)%Z ->
+  Legacy.mean_no_overflow xs = true ->
+  B64.b64_le (fst (StatsF.bounds_f xs)) (StatsF.mean_f xs) = true /\
+  B64.b64_le (StatsF.mean_f xs) (snd (StatsF.bounds_f xs)) = true.
+Proof. exact LegacyMean.min_le_mean_le_max_b64. Qed.
+Print Assumptions C12_mean_in_hull_b64.
